@@ -10,22 +10,22 @@ import (
 // of zero removes the operation (a property draws only the operations its own
 // quantifier names).
 type histOpts struct {
-	maxOps   int
-	maxText  int
-	write    int
-	fill     int // macro: write as much as fits (and a little more)
-	readFrom int
-	parse    int
-	drain    int // macro: parse until the buffer is empty
-	parseNil int
-	shrink   int
-	resetNil int
-	resetDat int
-	readAt   int
-	byteAt   int
-	peekAt   int
-	ntl      int // percentage of Parse calls with NoTrailingLiterals
-	faults   bool
+	maxOps    int
+	maxText   int
+	write     int
+	fill      int // macro: write as much as fits (and a little more)
+	readFrom  int
+	parse     int
+	drain     int // macro: parse until the buffer is empty
+	parseNil  int
+	shrink    int
+	resetNil  int
+	resetDat  int
+	readAt    int
+	byteAt    int
+	peekAt    int
+	ntl       int // percentage of Parse calls with NoTrailingLiterals
+	faults    bool
 	overReset bool // draw Reset data longer than BufferSize now and then
 }
 
